@@ -448,7 +448,7 @@ def step (d : Drv) (line : String) : Drv × Option String :=
          match candleOfToks ins with
          | none => ({ d with cs := .skip }, none)
          | some c =>
-           let eps := pow2 (-52)
+           let eps := if d.f32 then pow2 (-23) else pow2 (-52)
            let r : Res Renko := match bf with
              | .fin _ b => Renko.new eps b (Source.all.getD src .close) c
              | _ => .err .wrongMethodParameters
@@ -471,7 +471,7 @@ def step (d : Drv) (line : String) : Drv × Option String :=
          if parts.getD 1 [] == ["P"] then mismatch d "Renko::next panicked" line "panic"
          else match candleOfToks (ins.take 5), (ins.getD 5 "").toList.isEmpty, parseRat (ins.getD 5 "") with
            | some c, false, some value =>
-             match renkoStep (pow2 (-52)) st c value (parts.getD 1 []) (parts.getD 2 []) (parts.getD 3 []) (parts.getD 4 []) with
+             match renkoStep (if d.f32 then pow2 (-23) else pow2 (-52)) st c value (parts.getD 1 []) (parts.getD 2 []) (parts.getD 3 []) (parts.getD 4 []) with
              | some m => mismatch d m line "semantic"
              | none => ({ d with cs := match loadRenko (parts.getD 4 []) with | some s => .renko s | none => .skip }, none)
            | _, _, _ => ({ d with cs := .skip }, none)
